@@ -371,6 +371,30 @@ def r09_8(prog: Program, rep: Report):
     if root_cls:
         missing = sorted(root_cls - member_cls)
         rep.check(not missing, "R09.8", f.qualname, f.loc, f"every reference class accepted at the root ({sorted(root_cls)}) is evaluated when it arrives as a member", f"static_order() evaluates a root given as {sorted(root_cls)}, but the walk evaluates members of class {sorted(member_cls)} only: {missing} members -- the raw string arguments a builtin generic keeps, list['Node'], dict[str, 'Item'] -- become nodes whose type is a str object and the dispatch raises TypeError (issubclass() arg 1 must be a class)", detail="reference-members-classes")
+    # what is evaluated: a reference made of the text when the member is a str, the member itself when it is a ForwardRef
+    made_ok, n_made = True, 0
+    for p in ps:
+        # the member as it arrives (before it is re-bound to what it evaluates to): the subject of the reference test
+        raw = [g[2][0] for g, pol in p.guards() if pol and T.is_call_to(g, "builtins.isinstance") and len(g[2]) == 2 and g[2][0][0] in ("unpack", "elem") and "typing.ForwardRef" in {T.refname(x) for x in (P.flatten_display(prog, g[2][1]) or [g[2][1]])}]
+        if not raw:
+            continue
+        child = raw[0]
+        for e in p.events:
+            if e[0] == "assign" and T.is_call_to(e[2], "typelib.py.refs.evaluate") and e[2][2]:
+                n_made += 1
+                a = e[2][2][0]
+
+                def fold(tm, is_str, child=child):
+                    y = T.rewrite(tm, lambda z: ("const", is_str) if T.is_call_to(z, "builtins.isinstance") and z[2][:1] == (child,) and T.refname(z[2][1]) == "builtins.str" else None)
+                    while y[0] == "ifexp" and y[1][0] == "const":
+                        y = y[2] if y[1][1] else y[3]
+                    return y
+
+                as_text, as_ref = fold(a, True), fold(a, False)
+                if not (T.is_call_to(as_text, "typelib.py.refs.forwardref") and as_text[2][:1] == (child,)) or as_ref != child:
+                    made_ok = False
+    if n_made:
+        rep.check(made_ok, "R09.8", f.qualname, f.loc, "a str member is evaluated through refs.forwardref(member), a ForwardRef member as it is", "what the walk evaluates for a member that is a reference is not `forwardref(member)` for a str and the member itself for a ForwardRef (the two cases are swapped, or the reference is never made): refs.evaluate hands a str back unchanged, so list['Node'] keeps a member that is a str object (TypeError in the dispatch), or a ForwardRef is wrapped in another one", detail="reference-members-made")
     if not makes_refs:
         rep.held("R09.8", f.qualname, f.loc, "signature hints are never handed over as references", nontrivial=False)
     else:
